@@ -67,7 +67,8 @@ impl<M: MovingAverageConstructor> IndicatorConfig for Trix<M> {
 
 			Ok(Self::Instance {
 				tma: TMA::new(self.period1, &src)?,
-				sig: self.signal.init(src)?,
+				// the averaged quantity is a difference (change of the triple-smoothed source): it is `0` for a constant input
+				sig: self.signal.init(0.)?,
 				change: Change::new(1, &src)?,
 				cross1: Cross::new((), &(src, src))?,
 				cross2: Cross::new((), &(src, src))?,
